@@ -97,6 +97,13 @@ def concretize(v, model, memo=None):
 
 
 def close(a, b, tol=1e-6):
+    try:
+        return _close(a, b, tol)
+    except Exception:
+        return False
+
+
+def _close(a, b, tol=1e-6):
     import torch
     if isinstance(a, bool) or isinstance(b, bool):
         return bool(a) == bool(b)
